@@ -26,7 +26,7 @@ func trace(out string, n, blocks, nk, capacity, readsPerBlock int) {
 			logCap = 12 // rootmulti.MemoryCacheCapacity
 		}
 		w := newWorld(universe(nk, rng), cp)
-		tw.Emit(map[string]interface{}{"op": "reset", "cap": logCap})
+		tw.Emit(map[string]interface{}{"op": "reset", "cap": logCap, "nk": nk})
 		failed := false
 		step := func(s hx.Step) {
 			if failed {
@@ -122,10 +122,18 @@ func trace(out string, n, blocks, nk, capacity, readsPerBlock int) {
 				doRead(randomRead())
 			}
 		}
-		// final sweep: every point read at every retained height
+		// final sweep: every point read at the recent heights (the ones a cache can hold) and at
+		// two older retained heights
 		if !failed {
 			H := int(w.height())
-			for h := 1; h <= H; h++ {
+			hs := []int{}
+			for h := H; h >= 1 && h > H-5; h-- {
+				hs = append(hs, h)
+			}
+			if H > 5 {
+				hs = append(hs, 1+rng.Intn(H-5), 1+rng.Intn(H-5))
+			}
+			for _, h := range hs {
 				for _, via := range []string{"lazy", "cms"} {
 					for k := 1; k <= nk; k++ {
 						doRead(read{Via: via, H: h, Kind: "Get", K: k})
